@@ -435,3 +435,20 @@ Theorem totalistic_class_agrees : forall k rule u cells mask c t,
   TotalisticRule_call k rule u cells c t = totalistic_rule u cells k rule /\
   TotalisticRule_call_masked k rule u cells mask c t = totalistic_rule_masked u cells mask k rule.
 Proof. intros. split; reflexivity. Qed.
+
+(* one object reused on any sequence of neighbourhoods: every answer is that of the plain function on that
+   neighbourhood alone (no dependence on earlier calls, on c or on t) *)
+Theorem totalistic_class_sequence : forall k rule calls,
+  TotalisticRule_seq k rule calls = map (fun a => totalistic_nb k rule (fst (fst a))) calls.
+Proof.
+  intros k rule calls. unfold TotalisticRule_seq. apply map_ext.
+  intros [[nb c] t]. destruct nb; reflexivity.
+Qed.
+
+Corollary totalistic_class_sequence_nth : forall k rule calls i nb c t,
+  nth_error calls i = Some (nb, c, t) ->
+  nth_error (TotalisticRule_seq k rule calls) i = Some (totalistic_nb k rule nb).
+Proof.
+  intros k rule calls i nb c t H. rewrite totalistic_class_sequence.
+  rewrite nth_error_map, H. reflexivity.
+Qed.
